@@ -71,7 +71,8 @@ def make_options(cfg) -> SerializerOptions:
         frame_size=cfg["frame_size"],
         logical_type=cfg["ltype"],
         params=StreamParameters(generalized_statements=cfg["gen"], rdf_star=cfg["star"], delimited=cfg["delimited"],
-                                namespace_declarations=cfg["nsdecl"], stream_name=cfg.get("name", "")),
+                                namespace_declarations=cfg["nsdecl"], stream_name=cfg.get("name", ""),
+                                **({"version": cfg["version"]} if cfg.get("version") is not None else {})),
         lookup_preset=LookupPreset(max_names=mn, max_prefixes=mp, max_datatypes=md),
     )
 
